@@ -8,6 +8,7 @@ import (
 	"path"
 	"path/filepath"
 	"strings"
+	"sync"
 	"text/scanner"
 
 	"github.com/sboehler/knut/lib/common/cpr"
@@ -79,11 +80,31 @@ func ParseFile(file string) (directives.File, error) {
 	return p.ParseFile()
 }
 
+// loadedFiles is the set of files which are being loaded or have been loaded.
+type loadedFiles struct {
+	mutex sync.Mutex
+	files map[string]bool
+}
+
+// claim reports whether the caller is the first one to ask for the file.
+func (l *loadedFiles) claim(file string) bool {
+	l.mutex.Lock()
+	defer l.mutex.Unlock()
+	file = path.Clean(file)
+	if l.files[file] {
+		return false
+	}
+	l.files[file] = true
+	return true
+}
+
 func ParseFileRecursively(file string) (<-chan directives.File, func(context.Context) error) {
 	return cpr.Produce(func(ctx context.Context, ch chan<- directives.File) error {
 		wg, ctx := errgroup.WithContext(ctx)
+		loaded := &loadedFiles{files: make(map[string]bool)}
+		loaded.claim(file)
 		wg.Go(func() error {
-			res, err := parseRec(ctx, wg, ch, file, nil)
+			res, err := parseRec(ctx, wg, ch, loaded, file, nil)
 			if err != nil {
 				return err
 			}
@@ -98,7 +119,16 @@ type Result struct {
 	Err  error
 }
 
-func parseRec(ctx context.Context, wg *errgroup.Group, resCh chan<- directives.File, file string, ancestors []string) (directives.File, error) {
+func isAncestor(ancestors []string, file string) bool {
+	for _, a := range ancestors {
+		if path.Clean(a) == path.Clean(file) {
+			return true
+		}
+	}
+	return false
+}
+
+func parseRec(ctx context.Context, wg *errgroup.Group, resCh chan<- directives.File, loaded *loadedFiles, file string, ancestors []string) (directives.File, error) {
 	for _, a := range ancestors {
 		if path.Clean(a) == path.Clean(file) {
 			return directives.File{}, fmt.Errorf("include cycle: %s is included from itself (%s)", file, strings.Join(append(ancestors[:len(ancestors):len(ancestors)], file), " -> "))
@@ -116,8 +146,14 @@ func parseRec(ctx context.Context, wg *errgroup.Group, resCh chan<- directives.F
 	p.Callback = func(d directives.Directive) {
 		if inc, ok := d.Directive.(directives.Include); ok {
 			file := path.Join(filepath.Dir(file), inc.IncludePath.Content.Extract())
+			if !isAncestor(ancestors, file) && !loaded.claim(file) {
+				// included from several places (not a cycle): its directives are part
+				// of the journal once. Loading it once per include path is exponential
+				// in the depth of the include graph.
+				return
+			}
 			wg.Go(func() error {
-				res, err := parseRec(ctx, wg, resCh, file, ancestors)
+				res, err := parseRec(ctx, wg, resCh, loaded, file, ancestors)
 				if err != nil {
 					return err
 				}
